@@ -69,7 +69,9 @@ def build(scratch, race, src="/repo"):
 
 
 def run_bin(binary, args, timeout, cwd):
-    env = dict(ENV, GORACE="halt_on_error=0 log_path=" + os.path.join(cwd, "race"))
+    # history_size=7: the detector drops a report when it cannot restore the stack of the earlier access
+    # from the per-goroutine trace; with the default size that depends on what else the process ran
+    env = dict(ENV, GORACE="halt_on_error=0 history_size=7 log_path=" + os.path.join(cwd, "race"))
     try:
         r = subprocess.run([binary, "-test.run", "TestSim", "-test.timeout", "0"] + args, env=env, capture_output=True, timeout=timeout, cwd=cwd)
     except subprocess.TimeoutExpired as e:
@@ -359,6 +361,11 @@ def run_check(a, prop, tier, seed, spec, scratch, t_start):
             pf = r.get("planFile")
             if not pf or not os.path.exists(pf):
                 continue
+            if rule == "data-race":
+                # let the replay re-execute until the detector reports again (see DESIGN.md 2.6)
+                pl = json.load(open(pf))
+                pl["expect"] = {"prop": prop, "rule": rule}
+                json.dump(pl, open(pf, "w"))
             res, tail, err = run_bin(binary, ["-sim.replay", pf], 120, scratch)
             if err:
                 infra.append("confirmation replay of seed %s failed: %s" % (r["seed"], err))
